@@ -202,6 +202,15 @@ def rule_running_row_not_reset(ctx):
               "nothing between define_step and `DELETE FROM step` looks at the state of the reused row: a RUNNING (or CHECKING) detached step that is declared again with other arguments becomes PENDING while its command runs; the running command is no longer counted against jobs, resources or holds, and the step is dispatched a second time", "state of the reused row consulted", where=ctx.where_of(ir))
 
 
+def _filters_by_state(fn, call):
+    """The mapping handed to `call` is not a parameter of fn as it came in, and fn tests a node's get_state()."""
+    params = {a.arg for a in fn.args.args}
+    first = call.args[0] if call.args else None
+    passes_param = isinstance(first, ast.Name) and first.id in params and not any(isinstance(n, (ast.Assign, ast.AugAssign)) and first.id in {t.id for t in ast.walk(n) if isinstance(t, ast.Name) and isinstance(t.ctx, ast.Store)} for n in ast.walk(fn))
+    tests_state = any(isinstance(n, ast.Compare) and any(isinstance(c, ast.Call) and callee_name(c) == "get_state" for c in ast.walk(n)) for n in ast.walk(fn))
+    return first is not None and not passes_param and tests_state
+
+
 def rule_redeclared_running_step(ctx):
     """R-C12-10: how a step that is declared again while its command runs is carried through.
 
@@ -250,10 +259,13 @@ def rule_redeclared_running_step(ctx):
     ctx.check(re.search(r"run\.step\.i in self\.workflow\.declared_again", rsrc) is not None and "declared_again.discard(run.step.i)" in rsrc, rs.fq, "the executor consults the event and clears it when the command has ended", "the event is not consulted (or never cleared: every later run of the step would be discarded)", "in declared_again ... discard")
     # what the replaced command was declared to write is recorded before the step is made pending (C07: it can be removed later)
     seq = [callee_name(c) for c in calls_in(rs.node)]
-    upd = [c for c in calls_in(rs.node) if callee_name(c) == "update_file_hashes"]
+    rec = ctx.prog.func("executor.Executor._record_written_outputs")
+    upd = [c for c in calls_in(rec.node) if callee_name(c) == "update_file_hashes"]
+    rec_ok = bool(upd) and any(k.arg == "cause" and "FAILED" in ast.unparse(k.value) for k in upd[0].keywords) and _filters_by_state(rec.node, upd[0])
+    ctx.check(rec_ok, rec.fq, "what a dropped run wrote is recorded with cause FAILED, for paths that are still outputs", "recorded with another cause, or for paths whose role changed while the hashes were computed (no such transition: ConsistencyError)", "role filter + cause=FAILED")
     ok_dyn = re.search(r"run\.step\.out_paths\(raw=True\)", rsrc) is not None
     ctx.check(ok_dyn, rs.fq, "the former outputs the re-created step is still linked to (amended ones included) are hashed as well", "only the outputs declared at launch are recorded: a file the replaced command declared with amend(out=...) stays on disk for ever", "out_paths(raw=True)")
-    ok_out = bool(upd) and any(k.arg == "cause" and "FAILED" in ast.unparse(k.value) for k in upd[0].keywords) and "compute_out_hashes" in rsrc and re.search(r"run\.launched_decl\[2\]", rsrc) is not None and seq.index("update_file_hashes") < seq.index("set_state")
+    ok_out = rec_ok and "_record_written_outputs" in seq and "compute_out_hashes" in rsrc and re.search(r"run\.launched_decl\[2\]", rsrc) is not None and seq.index("_record_written_outputs") < seq.index("set_state")
     ctx.check(ok_out, rs.fq, "the outputs the command was launched with are hashed and recorded before the restart", "the early return skips the output hashes: a file written by the replaced command under a path the new declaration no longer has keeps state PLANNED without hash, is forgotten at cleanup and stays on disk", "compute_out_hashes(launched outputs) -> update_file_hashes(cause=FAILED)")
     starts = [c for c in calls_in(ej.node) if isinstance(c.func, ast.Attribute) and c.func.attr == "discard" and ast.unparse(c.func.value).endswith("declared_again")]
     first_await = min((a.lineno for a in ast.walk(ej.node) if isinstance(a, ast.Await)), default=10 ** 9)
@@ -350,7 +362,7 @@ def rule_pool_initialised(ctx):
 
 
 RULES = [
-    Rule("R-C12-10", "a step declared again while running keeps its row and is run again afterwards", rule_redeclared_running_step, min_instances=19),
+    Rule("R-C12-10", "a step declared again while running keeps its row and is run again afterwards", rule_redeclared_running_step, min_instances=20),
     Rule("R-C12-9", "the resource pool is initialised from the command line", rule_pool_initialised, min_instances=1),
     Rule("R-C12-8", "steps (re)attached inside a hold block are re-examined (hold clause relies on the _safe recomputation)", C10.rule_step_overrides, min_instances=8),
     Rule("R-C12-7", "resource claims are replaced on declaration", rule_claims_replaced, min_instances=7),
@@ -363,14 +375,16 @@ RULES = [
 ]
 
 MUTANTS = [
-    Mutant("verdict-applied-without-asking", "executor.py", in_function("Executor.execute_job", lambda t: t.replace("            if self._drop_verdict_if_declared_again(step):\n                # Declared again while the hashes were computed: what the command wrote is\n                # recorded as after a failure, the verdict is dropped.\n                self.workflow.update_file_hashes(new_out_hashes, cause=HashUpdateCause.FAILED)\n                self.scheduler.record_run_stopped(step.i, succeeded=False)\n                self._report_step_counts()\n                return\n", "", 1) if "Declared again while the hashes were computed" in t else None), ("R-C12-10",)),
+    Mutant("verdict-applied-without-asking", "executor.py", in_function("Executor.execute_job", lambda t: t.replace("            if self._drop_verdict_if_declared_again(step):\n                # Declared again while the hashes were computed: what the command wrote is\n                # recorded as after a failure, the verdict is dropped.\n                self._record_written_outputs(new_out_hashes)\n                self.scheduler.record_run_stopped(step.i, succeeded=False)\n                self._report_step_counts()\n                return\n", "", 1) if "Declared again while the hashes were computed" in t else None), ("R-C12-10",)),
     Mutant("skip-applied-without-asking", "executor.py", in_function("Executor.try_skip_job", replace_once("            if self._drop_verdict_if_declared_again(step):\n                self._report_step_counts()\n                return\n", "")), ("R-C12-10",)),
     Mutant("amended-outputs-of-replaced-command-forgotten", "executor.py", in_function("Executor._restart_if_declared_again", replace_once("            paths.update(record.path for record in run.step.out_paths(raw=True))\n", "")), ("R-C12-10",)),
     Mutant("checked-step-let-off-after-redeclaration", "executor.py", in_function("Executor.try_skip_job", replace_once("        if await self._discard_check_if_declared_again(step):\n            return\n", "")), ("R-C12-10",)),
     Mutant("checking-row-reset-by-redeclaration", "step.py", in_function("Step.initialize_row", lambda t: t.replace("        still_running = old_row is not None and old_row[0] in (\n            StepState.RUNNING.value,\n            StepState.CHECKING.value,\n        )\n", "        still_running = old_row is not None and old_row[0] == StepState.RUNNING.value\n", 1) if "StepState.CHECKING.value,\n        )" in t else None), ("R-C12-10",)),
     Mutant("stale-note-survives-early-exit", "executor.py", in_function("Executor.execute_job", replace_once("        self.workflow.declared_again.discard(step.i)\n", "")), ("R-C12-10",)),
     Mutant("redeclaration-compared-by-value-only", "step.py", in_function("Step.initialize_row", replace_once("        if still_running:\n            self.graph.declared_again.add(self.i)\n", "")), ("R-C12-10",)),
-    Mutant("replaced-command-outputs-forgotten", "executor.py", in_function("Executor._restart_if_declared_again", replace_once("                self.workflow.update_file_hashes(result.new_hashes, cause=HashUpdateCause.FAILED)\n", "                pass\n")), ("R-C12-10",)),
+    Mutant("replaced-command-outputs-forgotten", "executor.py", in_function("Executor._restart_if_declared_again", replace_once("                self._record_written_outputs(result.new_hashes)\n", "                pass\n")), ("R-C12-10",)),
+    Mutant("dropped-run-outputs-recorded-whatever-their-role", "executor.py", in_function("Executor._record_written_outputs", replace_once("        self.workflow.update_file_hashes(still_outputs, cause=HashUpdateCause.FAILED)\n", "        self.workflow.update_file_hashes(out_hashes, cause=HashUpdateCause.FAILED)\n")), ("R-C12-10",)),
+    Mutant("dropped-run-outputs-recorded-as-succeeded", "executor.py", in_function("Executor._record_written_outputs", replace_once("cause=HashUpdateCause.FAILED", "cause=HashUpdateCause.SUCCEEDED")), ("R-C12-10",)),
     Mutant("declared-again-never-cleared", "executor.py", in_function("Executor._restart_if_declared_again", replace_once("            self.workflow.declared_again.discard(run.step.i)\n", "")), ("R-C12-10",)),
     Mutant("redeclared-running-row-reset", "step.py", in_function("Step.initialize_row", replace_once('"state": old_row[0] if still_running else StepState.PENDING.value,', '"state": StepState.PENDING.value,')), ("R-C12-10",)),
     Mutant("redeclared-running-loses-holds", "step.py", in_function("Step.initialize_row", replace_once('"holding": old_row[1] if still_running else 0,', '"holding": 0,')), ("R-C12-10",)),
